@@ -61,6 +61,22 @@ def case(rng):
                                 Or(Nil(), Var(a)), Bin('==', Var(a), Nil()), Bin('==', Var(a), Bool(False)),
                                 Bin('==', Nil(), Bool(False)), Bin('==', Str('1'), Num(1))]))
             tags.add('truthiness')
+    if r.random() < 0.5:
+        # a large map keyed by numbers: 0 and -0 are one key whatever the table size
+        n = r.choice([120, 200, 400])
+        stmts.append(Let('big', MapLit([])))
+        stmts.append(For('bi', Call(Prop(Num(n), 'times'), []),
+                         [ExprS(Assign(Index(Var('big'), Bin('-', Var('bi'), Num(n // 2))), Var('bi')))]))
+        negz = r.choice([Bin('*', Num(0.0), Num(-1.0)), Un('-', Num(0.0)), Call(Prop(Group(Num(-0.3)), 'round'), []),
+                         Bin('-', Num(0.0), Num(0.0))])
+        stmts.append(Let('nz', negz))
+        stmts.append(Print([Str('bigmap'), Call(Prop(Var('big'), 'len'), []), Call(Prop(Var('big'), 'has'), [Var('nz')]),
+                            Call(Prop(Var('big'), 'get'), [Var('nz')]), Call(Prop(Var('big'), 'has'), [Num(-1.0)]),
+                            Call(Prop(Var('big'), 'get'), [Num(float(n // 2 - 1))]),
+                            Call(Prop(Var('big'), 'has'), [Num(0.5)])]))
+        stmts.append(ExprS(Assign(Index(Var('big'), Var('nz')), Str('again'))))
+        stmts.append(Print([Str('bigmap2'), Call(Prop(Var('big'), 'len'), []), Index(Var('big'), Num(0.0))]))
+        tags.add('bigmap')
     return {'stmts': stmts, 'tags': tags}
 
 
